@@ -50,10 +50,16 @@ ASSUMPTIONS = ["all text is printable ASCII",
                "back as the position by design (like the GFF defaults), and `abs` / the judge expect exactly that (refNum, withDefaultIndex); an Index "
                "holding a blank is excluded (the REFERENCE line separates number and range by blanks)",
                "IN the domain since the review (and judged): metadata with runs of blanks, name-less records (two known findings), any blank-free Reference.Index; features without location {0,0}, reversed / negative spans, Join-less multi-operand nodes, complement of complement (all pass)"]
-PARTIAL = ["build_strict_layout_partial: proved on the judge's layout domain wfLayoutJ minus EXACTLY the two known findings (wfLayoutG = wfLayoutJ, a locus "
-           "name, no run of blanks at a wrap point of WrapString(_, 68)): metadata with runs of blanks inside a line is covered; "
-           "layout_domain_partition shows wfLayoutJ = theorem domain ∪ C03-blank-run-at-wrap ∪ C03-nameless-locus, and the witnesses "
-           "blank_run_at_wrap_record_witness / nameless_locus_witness show the clause fails there (class tag /lay = inside the theorem)",
+PARTIAL = ["build_strict_layout_partial: proved on the judge's layout domain wfLayoutJ minus the two known findings (wfLayoutG = wfLayoutJ, a locus "
+           "name, no run of blanks at a wrap point of WrapString(_, 68)): metadata with runs of blanks inside a line is covered. The class "
+           "C03-blank-run-at-wrap is SYNTACTIC (clsBlankRun: a locus name, and for some metadata text WrapString writes fewer characters than the "
+           "text has — computed from the value and the writer's wrap column, no reader in it; blank_run_class_syntactic: such a text holds two adjacent "
+           "blanks). build_strict_layout_exact states the exact result on ALL of wfLayoutJ with a name: strictRead (build x o) = some (abs (expectedBack x)) "
+           "(every text as its wrapped lines re-join). The clause FAILS on every record of either class (blank_run_class_fails: the record read back "
+           "holds fewer characters of metadata text; nameless_class_fails: the strict reader never returns a record without a name), the three "
+           "classes are pairwise disjoint and cover wfLayoutJ (layout_domain_partition; name-less first), so on wfLayoutJ the clause holds IFF the record "
+           "is in the theorem's domain (layout_clause_iff). For a name-less record the record read back (expectedBack: tokens shifted) is a "
+           "prediction checked on every case and on two kernel witnesses, not a theorem (class tag /lay = inside the theorem)",
            "parse_build (parse (build x o) ≈ ok x over the parser model of C01, on the judge's round-trip domain wfSeqJ): proved as "
            "parse_build_partial (Props/C03Parse.lean) under `covered x` = wfSeqJ minus the two known findings (wfLayoutG: runs of blanks allowed "
            "when none falls on a wrap point — general bridge lemma wrapText_breaks_general over the refined wrap relation WrappedS) && REFERENCE "
@@ -67,13 +73,14 @@ PARTIAL = ["build_strict_layout_partial: proved on the judge's layout domain wfL
            "parse_build_partial states the exact result (toSequence (toRec x)); an UNSET Reference.Index comes back as its position because that is what "
            "Build writes for it (be39eee: {Index:\"\"} at position 1 and {Index:\"1\"} give the same bytes) — `approx` and the judge compare with "
            "withDefaultIndex x and say so",
-           "location STRUCTURE: for a feature written from its cached text, approx includes `parseLocation (text read back) ≈ SequenceLocation` "
-           "(modulo normLoc; from wfSeq's cacheConsistent). For a STRUCTURALLY assembled feature only the text BuildLocationString prints is in the "
-           "theorem: `wfLoc p → parseLocation (buildLoc p) ≈ p` is NOT proved — C02's parsed_structure is about `print l` (INSDC `a..>b`, base `n`), "
-           "not about the `a..b>` / `n..n` text Build writes (buildLoc_rep: buildLoc p = tprint true (norm l)); the lemma is requested from C02, and "
-           "coordinates outside C02's Loc (negative start, {0,0}, stop < start) cannot go through it. Judged on every case: the real "
-           "SequenceLocation of Parse(Build(x)) is compared with x's by locBeq ∘ normLoc (a brute force over 1032 wfLoc structures by the round-3 "
-           "reviewer found no counterexample)",
+           "location STRUCTURE: approx includes `parseLocation (text read back) ≈ SequenceLocation` (modulo normLoc) for EVERY feature: for a cached "
+           "text from wfSeq's cacheConsistent, for a structurally assembled feature by location_structure_read_back (Lemmas/GbLocStruct.lean: bridge "
+           "locOf from C03's decidable domain to C02's Rep ∧ InRange ∧ Arity, then C02's parseLocation_tprint on the `a..b>` / `n..n` text Build "
+           "writes). `covered` therefore also demands (8) locProved for structural locations: wfLoc and EITHER every span 0 <= Start < End and no "
+           "one-operand node with the Join flag (any nesting of joins / merged complements / complement wrappers, any partial markers) OR the "
+           "location is one span, then with any integers ({0,0}, -4..3, 1..0). Outside it — a negative / {0,0} / reversed span BELOW an operator "
+           "(C02's Loc has no such coordinates), join(x) with one operand (no INSDC join) — the structure is judged on every case only: the real "
+           "SequenceLocation of Parse(Build(x)) is compared with x's by locBeq ∘ normLoc",
            "known findings (judge FAILS, tagged): C03-blank-run-at-wrap, C03-nameless-locus (exactly Locus.Name == \"\")"]
 PROOF_MODULES = ["PolyVerif.Props.C03", "PolyVerif.Props.C03Parse"]
 
@@ -182,6 +189,20 @@ def loc_has(t, p):
     return loc_has(t[1], p) if t[0] == "compl" else any(loc_has(x, p) for x in t[1])
 
 
+def loc_proved(t):
+    """inside Spec.GbStrict.locProved (the structural locations for which parseLocation(buildLoc p) ≈ p is a theorem):
+    one span with any integers, or every span 0 <= start < end and no one-operand join"""
+    if t[0] == "span":
+        return True
+    def inner(q):
+        if q[0] == "span":
+            return 0 <= q[1] < q[2]
+        if q[0] == "compl":
+            return inner(q[1])
+        return len(q[1]) >= 2 and all(inner(x) for x in q[1])
+    return inner(t)
+
+
 def loc_flags(t):
     if t[0] == "span":
         return (t[3], t[4])
@@ -275,6 +296,13 @@ def gen_record(r, maxseq, maxfeat, maxmeta, cached_mode, shadow=False, covered=F
         attrs = [(k, qual_value(r, k)) for k in qk]
         if covered and loc_has(t, lambda q: q[0] == "span" and q[1] < 0):
             t = ("span", 0, 1, False, False)
+        if covered and not cached:
+            for _ in range(6):
+                if loc_proved(t):
+                    break
+                t = gen_loc(r, n)
+            else:
+                t = ("span", 0, 1, False, False)
         feats.append((r.choice(FEATURE_KEYS), loc_text(t, insdc) if cached else "", loc_ser(t, cached or r.random() < 0.5), attrs, t))
     rec["feats"] = feats
     rec["seq"] = seq
@@ -480,9 +508,11 @@ LEVEL_TEXT = ("Determinism (all map iteration orders), the wrap/unwrap inversion
               "expresses (parse_build_partial) and is judged on the REAL parser for every case (real Parse(real Build(x)) ≈ x, Write/Read "
               "through a file); the parser model itself is compared with the real parser on every written text.")
 LEVEL_NOTE = ("Share of the thorough tier's judged cases inside the theorems' domains (class tags /lay and /pb in the evidence's class histogram; "
-              "last thorough run, 15648 judged): build_strict_layout_partial 91.4 % (all but the two known findings), parse_build_partial 91.3 % "
-              "(the rest: the two known findings, plus 0.1 %: quotation marks in qualifier keys, location texts that are not one expression, a "
-              "REFERENCE line broken at its own two blanks); 16 % of the cases carry own / unset reference numbers, all inside the theorems. Trusted: Lean kernel; harness + pm_C03 judge; the hand transcription of go-wordwrap and of Build (tied by correspondence on every "
+              "last thorough run, 15671 judged): build_strict_layout_partial 90.7 % (all but the two known findings, 9.3 %; on these the exact result / the failure "
+              "is a theorem too: build_strict_layout_exact, blank_run_class_fails, nameless_class_fails), parse_build_partial 83.7 % "
+              "(the rest: the two known findings, plus 6.9 %: structural locations outside locProved — a {0,0} / reversed / negative span below an operator, "
+              "join(x) with one operand — and, 0.1 %, quotation marks in qualifier keys, location texts that are not one expression, a "
+              "REFERENCE line broken at its own two blanks); 15 % of the cases carry own / unset reference numbers, all inside the theorems. Trusted: Lean kernel; harness + pm_C03 judge; the hand transcription of go-wordwrap and of Build (tied by correspondence on every "
               "case, byte for byte); the strict reader as the meaning of 'independent reader'; ASCII.")
 
 HARNESS_BIN = "run-genbank"
